@@ -5,6 +5,7 @@
 import PgmVerif.Proofs.VE
 import PgmVerif.Proofs.Sample
 import Mathlib.Tactic.FieldSimp
+import Mathlib.Algebra.BigOperators.Field
 namespace PgmVerif
 open Factor
 
@@ -33,6 +34,14 @@ theorem C07_gibbs_kernel_local (K : Var → Nat) (fs : List Factor) (v : Var) (a
   by_cases h0 : sumVar K v (jointDen (fs.filter (fun f => f.scope.contains v))) a = 0
   · rw [h0, mul_zero, div_zero, div_zero]
   · field_simp
+
+/-- **the Gibbs kernel is a distribution**: the full conditional of `v` (any non-negative or signed weight function `g`,
+    e.g. the product of the factors mentioning `v`), divided by its total over the states of `v`, sums to one -/
+theorem C07_gibbs_kernel_normalised (K : Var → Nat) (g : Asg → Rat) (v : Var) (a : Asg)
+    (hne : sumVar K v g a ≠ 0) :
+    sumVar K v (fun b => g b / sumVar K v g a) a = 1 := by
+  rw [sumVar_eq]
+  rw [← Finset.sum_div, ← sumVar_eq, div_self hne]
 
 /-- **likelihood weighting**: joint(row) = (Π over evidence variables of their CPD entry) ×
     (Π over sampled variables of their CPD entry); the first product is the weight the sampler
